@@ -58,6 +58,12 @@ func (d Decimal) Ceil(dp int) Decimal {
 		return zero(d.Signbit())
 	}
 
+	if dp < -maxBiasedExponent-maxDigits {
+		// Every quantum this large gives the same result, and the
+		// negation below can no longer overflow.
+		dp = -maxBiasedExponent - maxDigits
+	}
+
 	dp = dp*-1 + exponentBias
 	iexp := int(exp)
 
@@ -147,6 +153,12 @@ func (d Decimal) Floor(dp int) Decimal {
 
 	if sig[0]|sig[1] == 0 {
 		return zero(d.Signbit())
+	}
+
+	if dp < -maxBiasedExponent-maxDigits {
+		// Every quantum this large gives the same result, and the
+		// negation below can no longer overflow.
+		dp = -maxBiasedExponent - maxDigits
 	}
 
 	dp = dp*-1 + exponentBias
@@ -239,6 +251,12 @@ func (d Decimal) Round(dp int, mode RoundingMode) Decimal {
 
 	if sig[0]|sig[1] == 0 {
 		return zero(d.Signbit())
+	}
+
+	if dp < -maxBiasedExponent-maxDigits {
+		// Every quantum this large gives the same result, and the
+		// negation below can no longer overflow.
+		dp = -maxBiasedExponent - maxDigits
 	}
 
 	dp = dp*-1 + exponentBias
